@@ -167,7 +167,25 @@ func c15Outcomes() []c15Outcome {
 			out = append(out, c15Outcome{fmt.Sprintf("permanent+%v/retry-delay=%v", c, d), consumererror.NewPermanent(st.Err()), g, c15HTTPClass(c, d), hs, ra})
 		}
 	}
+	// a requested delay that is not a whole number of seconds: gRPC carries it exactly; the HTTP Retry-After header holds
+	// whole seconds, rounded either way - but the delay is honoured
+	for _, c := range []codes.Code{codes.Unavailable, codes.ResourceExhausted} {
+		d := 2500 * time.Millisecond
+		st, _ := status.New(c, "x").WithDetails(&errdetails.RetryInfo{RetryDelay: durationpb.New(d)})
+		out = append(out, c15Outcome{fmt.Sprintf("%v/retry-delay=%v", c, d), st.Err(), fmt.Sprintf("throttle:%v", d), "throttle:2s|throttle:3s", c15HTTPStatus(c), true})
+	}
 	return out
+}
+
+// c15ClassIn: want may list alternatives ("a|b") where the specification leaves a choice (rounding of a delay that is not a
+// whole number of seconds into the integer Retry-After header)
+func c15ClassIn(got, want string) bool {
+	for _, w := range strings.Split(want, "|") {
+		if got == w {
+			return true
+		}
+	}
+	return false
 }
 
 var c15ThrottleRe = regexp.MustCompile(`Throttle \(([^)]+)\)`)
@@ -580,7 +598,7 @@ func c15RunCase(w *c15World, senders []c15Sender, outcomes []c15Outcome, c c15Ca
 	if s.http {
 		want = o.httpClass
 	}
-	if g := c15Classify(err); g != want {
+	if g := c15Classify(err); !c15ClassIn(g, want) {
 		return fmt.Sprintf("classification:%s:%s:got=%s,spec=%s", tr, strings.SplitN(o.Name, "/", 2)[0], strings.SplitN(g, ":", 2)[0], strings.SplitN(want, ":", 2)[0]), fmt.Sprintf("%s: consumer outcome %s was seen by the sender as %q (err=%v); the OTLP specification prescribes %q", desc, o.Name, g, err, want)
 	}
 	return "", ""
